@@ -31,7 +31,7 @@ def flat(s):
     return re.sub(r"\s+", "", s)
 
 
-from rules.common import flatp, has, same  # noqa: E402
+from rules.common import flatp, has, same, xquotes  # noqa: E402
 
 
 def last_seg(path):
@@ -123,7 +123,7 @@ def r1_tables(ctx):
     for key, fname, ty in (("macro PluralForm", "to_token_stream", "PluralForm"), ("macro PluralRuleType", "to_token_stream", "PluralRuleType")):
         fn = ast.fn(MP, fname, impl_self=ty)
         if fn:
-            for q in quotes_in(fn.body):
+            for q in xquotes(fn.body):
                 t = tok_text(q["tokens"])
                 want = "PluralCategory" if ty == "PluralForm" else "PluralRuleType"
                 if ("icu :: plurals :: " + want + " ::") not in t:
@@ -298,7 +298,7 @@ def r4_selectors(ctx):
         if fn is None:
             r.missing("plurals::" + name)
             continue
-        qs = [tok_text(q["tokens"]) for q in quotes_in(fn.body)]
+        qs = [tok_text(q["tokens"]) for q in xquotes(fn.body)]
         main = [q for q in qs if "category_for" in q]
         ok = False
         for q in main:
@@ -336,7 +336,7 @@ def r4_selectors(ctx):
             r.inst("Plurals::populate_with_count_arg", "forms.get(category).unwrap_or(other).populate(args)")
         else:
             r.viol("R4:Plurals::populate_with_count_arg", "parse-time selection is no longer forms[category] else other", file=fn.file, line=fn.line)
-    from rules.common import msum, xquotes
+    from rules.common import msum
     got = msum(ctx.mir("main"), r"macro_helpers::get_plural_category_for$", stop=r"get_plural_rules$")
     w = "PluralRules::category_for(formatting::get_plural_rules(p1, p3), Fn::call(p2, ()))"
     if not got:
